@@ -59,6 +59,25 @@ def run(res, tier, seed):
     g = gen.G(seed)
     cases = [ops.build(name, g, None, 120 if tier == "quick" else 250) for name in OPS for _ in range(n)]
     cases += [ops.build(name, g, lambda role: {"fill": "rand"}, 100) for name in OPS for _ in range(max(3, n // 5))]
+    # mixed forms: a random non-empty proper subset of the operands as views, the others owning their storage (a
+    # supplied owned destination next to a view factor, and so on)
+    gm = gen.G(seed + 17)
+    for name in OPS:
+        roles = ops.CATALOG[name]["roles"]
+        if len(roles) < 2:
+            continue
+        for _ in range(max(3, n // 5)):
+            sub = set(r_ for r_ in roles if gm.rng.random() < 0.5) or {gm.rng.choice(roles)}
+            cases.append(ops.build(name, g, (lambda sub: (lambda role: {"fill": "rand"} if role in sub else None))(sub), 100))
+    # squaring forms (both factors the same object) x {factor a view or owned} x {destination NULL, owned with junk, a view}
+    ops.SAME_BIAS = 1.0
+    try:
+        for name in [o for o in ("mul", "addmul") if o in ops.CATALOG]:
+            for sub in ((), ("A",), ("A", "C"), ("C",)):
+                for _ in range(4 if tier == "quick" else 25):
+                    cases.append(ops.build(name, g, (lambda sub: (lambda role: {"fill": "rand"} if role in sub else None))(sub), 100))
+    finally:
+        ops.SAME_BIAS = None
     hcases = hist_cases(gen.G(seed + 5), OPS, max(4, n // 4))
     base = runner.run_c(cases)
     pats = ["1", "77", "123456789"] if tier == "quick" else [str(i * 7919 + 1) for i in range(8)]
@@ -121,6 +140,32 @@ def run(res, tier, seed):
         for c, why, co, mo in corr.compare(big, b1, bm):
             report(c, "value-dependence above the cache threshold (small-cache build, poisoned heap): %s" % why, [("heap", co), ("model", mo)])
         res.cov["cases_big"] = len(big)
+    # mzd_randomize overwrites its destination with the stream of random(): no value model, but after srandom(s) the
+    # result must be the same whatever the destination held before (zero / ones / random), owned or a view
+    gr = gen.G(seed + 13)
+    rcases, groups = [], []
+    for idx in range(12 if tier == "quick" else 80):
+        nr = gr.rng.choice([1, 2, 5, 17, gr.rng.randint(1, 40)])
+        nc = gr.rng.choice([1, 7, 63, 64, 65, 100, 127, 128, 129, 200, gr.rng.randint(1, 300)])
+        sd = gr.rng.randrange(1, 1 << 30)
+        win = None if idx % 3 else {"wo": gr.rng.choice([0, 1]), "fill": "rand"}
+        grp = []
+        for fill in ("zero", "ones", "dense"):
+            rows, _ = gr.rows(nr, nc, fill)
+            la, da = gr.operand("A", nr, nc, rows, win)
+            c = corr.Case("randomize-%d-%s" % (idx, fill), la + ["call randomize A %d" % sd, "dump A"],
+                          {"op": "randomize", "shape": (nr, nc), "kinds": (fill,), "windowed": win is not None})
+            grp.append(c); rcases.append(c)
+        groups.append(grp)
+    ro = runner.run_c(rcases)
+    sweep([c for c in rcases if not c.meta["windowed"]], ro, "randomize")
+    for grp in groups:
+        outs = [ro.get(c.id) for c in grp]
+        res.count(("randomize", grp[0].meta["shape"], grp[0].meta["windowed"]))
+        if any(o is None or o[0] != "OK" for o in outs) or len(set(tuple(o[1]) for o in outs)) != 1:
+            report(grp[1], "destination-dependence: mzd_randomize after srandom(s) gives different matrices for different prior "
+                   "contents of its destination", [(c.meta["kinds"][0], o) for c, o in zip(grp, outs)])
+    res.cov["cases_randomize"] = len(rcases)
     for k, pat in enumerate(pats):
         out = runner.run_c(cases, env={"VERIF_POISON": pat})
         sweep(cases, out, "heap=" + pat)
